@@ -1,7 +1,7 @@
 """
 FragLib.tla -> code: every behaviour (sequence of read_fragments calls, with and without an existing
 dictionary) is replayed into cgsmiles.read_fragments.read_fragments; the dictionaries (names in key order, which
-definition each name holds), the identity of the returned object and the untouched other dictionaries are compared.
+definition each name holds) and the untouched other dictionaries are compared.
 Reported as X_FragLib_* clauses in the evidence of C12 (fragment libraries).
 """
 from .. import mc, project
@@ -11,7 +11,7 @@ PROPERTIES = ["ExistingWin", "OthersUntouched"]
 CONSTS = {"quick": dict(Names="NamesQ", Defs="DefsQ", MaxCalls=2, MaxBlock=2),
           "thorough": dict(Names="NamesQ", Defs="DefsQ", MaxCalls=3, MaxBlock=2)}
 TEXT = {True: {1: "[$]C", 2: "[$]CC[$]"}, False: {1: "[$][#P]", 2: "[$][#P][#Q][>]"}}
-CLAUSES = ["X_FragLib_Replayable", "X_FragLib_Contents", "X_FragLib_ReturnsGivenDict"]
+CLAUSES = ["X_FragLib_Replayable", "X_FragLib_Contents"]
 
 
 def replay(calls, all_atom):
@@ -24,9 +24,10 @@ def replay(calls, all_atom):
             if c["target"] == 0:
                 dicts.append(read_fragments(block, all_atom=all_atom))
             else:
+                # whether the given dictionary is extended in place or a new one is returned is not compared:
+                # the returned dictionary takes its place
                 given = dicts[c["target"] - 1]
-                got = read_fragments(block, all_atom=all_atom, fragment_dict=given)
-                same = same and (got is given)
+                dicts[c["target"] - 1] = read_fragments(block, all_atom=all_atom, fragment_dict=given)
     content = [[[name, len(g)] for name, g in d.items()] for d in dicts]
     return content, same
 
@@ -39,8 +40,7 @@ def _one(args):
     except Exception as exc:
         return {"X_FragLib_Replayable": False, "exc": "%s: %s" % (type(exc).__name__, str(exc)[:100])}
     exp = [[[e[0], e[1]] for e in d] for d in p["dicts"]]
-    return {"X_FragLib_Replayable": True, "X_FragLib_Contents": content == exp, "X_FragLib_ReturnsGivenDict": same,
-            "got": content}
+    return {"X_FragLib_Replayable": True, "X_FragLib_Contents": content == exp, "got": content}
 
 
 def run_fraglib(check, tier):
